@@ -161,7 +161,14 @@ def install(w):
         if attr in TY_ATTRS:
             kinds, spec = TY_ATTRS[attr]
             it.guard(sor(*[G.tkind(t) == k for k in kinds]), AttributeError, node, "SAFE-Attr")
-            return refs.read_attr(it, "Ty", t, G.TyS, attr, spec)
+            r = refs.read_attr(it, "Ty", t, G.TyS, attr, spec)
+            if attr == "name" and isinstance(r, VStr):
+                # A_TYPES: a schema has finitely many named types - the name of a type object belongs
+                # to the finite universe of names that measured visited sets count (pyvc/namesets.py)
+                from pyvc import namesets, maps
+                kv = sym.as_view(r)
+                it.sadd(namesets.IN_U(maps.STRKEY(kv.arr, kv.hi)))
+            return r
         return prev_type_attr(it, v, attr, node)
     w.type_attr = type_attr
 
